@@ -876,8 +876,18 @@ func (c *Ctx) retentionCancel(rule string) {
 	}
 	// every exit of Start closes retentionShutdown
 	isClose := func(in ssa.Instruction) bool {
-		call, ok := in.(*ssa.Call)
-		return ok && eng.CalleeName(call.Common()) == "builtin.close" && eng.SameField(eng.LoadedField(call.Call.Args[0]), fShut)
+		// a plain close, or `defer close(…)`: once the defer statement has run, every exit
+		// (return or panic) closes the channel
+		var cc *ssa.CallCommon
+		switch x := in.(type) {
+		case *ssa.Call:
+			cc = x.Common()
+		case *ssa.Defer:
+			cc = x.Common()
+		default:
+			return false
+		}
+		return eng.CalleeName(cc) == "builtin.close" && eng.SameField(eng.LoadedField(cc.Args[0]), fShut)
 	}
 	if ret := (&eng.Search{Target: eng.IsReturnOf(start), Avoid: isClose, Deep: true}).FromEntry(start); ret != nil {
 		r.Bad(rule, "close-on-exit", p.InstrPos(ret), "RetentionScanner.Start can return without closing retentionShutdown: Join blocks forever and main never finishes shutdown")
